@@ -5,7 +5,7 @@ ID = 'C09'
 LEVEL = 'exploration'
 RULE = ('ALL non-empty predicates over 1-3 two-valued variables and over the '
         'grids 0..3, -2..1, -4..-1, 0..7, 0..3x0..1, -2..1x0..1, -4..-1x0..1 '
-        '(thorough: the cyclic-core instances and every fourth of 640 deterministic 32-point predicates over five 0..1 variables and over 0..3x0..3x0..1, and all 65535 over 4 two-valued variables, over 0..3x-2..1 and over -4..-1x-2..1; '
+        '; plus, beyond the exhaustive scope, the cyclic-core instances and every fourth of 1600 (thorough 6400) seed-indexed 32-point predicates over five 0..1 variables and 400 (1600) over 0..3x0..3x0..1 (thorough: all 65535 over 4 two-valued variables, over 0..3x-2..1 and over -4..-1x-2..1; '
         'quick: 2048 of each, spread with stride 32 from a seed-selected offset, plus EVERY predicate of these three whose covering problem has a non-empty cyclic core) x care in {TRUE, type '
         'hints, f|g, a care set missing a point of f}; cover.minimize read '
         'out to a set of boxes and compared with brute force: only maximal '
@@ -20,7 +20,8 @@ BIG = ['b4', 'g44', 'n44']
 BLOCK = 2048
 
 
-def shards(tier, seed, spread=BLOCK, cyclic_grids=None, small=None):
+def shards(tier, seed, spread=BLOCK, cyclic_grids=None, small=None,
+           large=None):
     cyclic_grids = BIG if cyclic_grids is None else cyclic_grids
     out = [dict(extra=True)]
     for g in (SMALL if small is None else small):
@@ -51,14 +52,18 @@ def shards(tier, seed, spread=BLOCK, cyclic_grids=None, small=None):
             for lo in range(1, 65536 if g in cyclic_grids else 0, 512):
                 out.append(dict(grid=g, cyclic=[lo, min(lo + 511, 65535)],
                                 backend='cudd', care='TRUE+hints'))
-    if tier == 'thorough':
-        # larger instances (32 points): not exhaustive, a deterministic
-        # spread of predicates with 12..20 points, kept if the covering
-        # problem has a non-empty cyclic core
-        for g in ('b5', 'g444'):
-            for i in range(0, 640, 8):
-                out.append(dict(grid=g, large=[i, i + 8, seed],
-                                backend='cudd', care='TRUE+hints'))
+    # larger instances (32 points): NOT exhaustive - the property's own
+    # quantifier asks for "sampled larger instances with non-empty cyclic
+    # cores": a deterministic, seed-indexed family of predicates with 12..25
+    # points, kept if the covering problem has a non-empty cyclic core (and
+    # every fourth one regardless)
+    n_large = large if large is not None else (
+        6400 if tier == 'thorough' else 1600)
+    for g in ('b5', 'g444'):
+        n = n_large if g == 'b5' else n_large // 4
+        for i in range(0, n, 16):
+            out.append(dict(grid=g, large=[i, i + 16, seed],
+                            backend='cudd', care='TRUE+hints'))
     return out
 
 
@@ -73,7 +78,7 @@ def _large_masks(grid, lo, hi, seed):
     bpts = {b: frozenset(bx.box_points(b)) for b in allb}
     for i in range(lo, hi):
         rnd = random.Random(f'{grid}-{seed}-{i}')
-        k = rnd.randint(12, 20)
+        k = rnd.randint(12, 25)
         F = frozenset(rnd.sample(sp, k))
         impl = [b for b in allb if bpts[b] <= F]
         pr = [b for b in impl
